@@ -50,8 +50,18 @@ def grid(tier):
     files.append({"path": ["z-last.bin"], "size": 20000, "mode": "nz", "seed": 77})
     places.append({"place": {"dir": 0, "sub": []}, "decoy": None, "pre": "none"})
     tree = {"name": "pkg-t0", "single": False, "files": files}
-    return [{"torrents": [{"tree": tree, "P": 16384, "creator": "TorrentFile", "files": places}], "nsearch": 1, "unrelated": [],
-             "order": 0, "metafiles_as_dir": False, "dest_via_symlink": False, "dest_spelling": "abs"}]
+    cases = [{"torrents": [{"tree": tree, "P": 16384, "creator": "TorrentFile", "files": places}], "nsearch": 1, "unrelated": [],
+              "order": 0, "metafiles_as_dir": False, "dest_via_symlink": False, "dest_spelling": "abs"}]
+    # the same with the distinguishing directory one level further up: pkg/mNN/docs/index.txt (every immediate parent is "docs")
+    files2, places2 = [], []
+    for i in range(9):
+        files2.append({"path": ["m%02d" % i, "docs", "index.txt"], "size": 3, "mode": "nz", "seed": 800 + i})
+        places2.append({"place": {"dir": 0, "sub": ["m%02d" % i, "docs"]}, "decoy": None, "pre": "none"})
+    files2.append({"path": ["z-last.bin"], "size": 20000, "mode": "nz", "seed": 78})
+    places2.append({"place": {"dir": 0, "sub": []}, "decoy": None, "pre": "none"})
+    cases.append({"torrents": [{"tree": {"name": "doc-t0", "single": False, "files": files2}, "P": 16384, "creator": "TorrentFile", "files": places2}],
+                  "nsearch": 1, "unrelated": [], "order": 0, "metafiles_as_dir": False, "dest_via_symlink": False, "dest_spelling": "abs"})
+    return cases
 
 
 def classes_of(case):
